@@ -4,7 +4,7 @@
 From Coq Require Import List NArith Bool Arith Lia.
 From Coq.Strings Require Import Byte.
 Import ListNotations.
-From OV Require Import Base.Bytes Base.Cases Base.Utf8 Gen.EdiConsts Model.Edi Proofs.Edi Proofs.EdiUnits.
+From OV Require Import Base.Bytes Base.Cases Base.Utf8 Gen.EdiConsts Gen.EdiShape Model.Edi Proofs.Edi Proofs.EdiUnits.
 
 (* ---- side conditions ---------------------------------------------------------------------------- *)
 (* "pairwise non-overlapping": the delimiters in use and the release character are non-empty
@@ -794,7 +794,9 @@ Lemma read_token_enc s cr : s <> [] -> Forall elem_ok s -> seg_name s <> [] ->
   (cr = true -> seg = [LF]) -> (seg = [LF] -> has_suffix (enc_seg c s) [CR] = false) ->
   read_token c (enc_seg c s ++ cr_if cr ++ seg) = Ok (exp_seg c s).
 Proof.
-  intros Hne Hel Hname Hcr Hnocr. unfold read_token. fold seg.
+  intros Hne Hel Hname Hcr Hnocr. unfold read_token.
+  (* the LF rule as extracted: delimiter "\n", suffix "\r", one byte dropped *)
+  change lf_rule_delim with [LF]. change lf_rule_suffix with [CR]. change edi_lf_rule_drop with 1. fold seg.
   assert (length (enc_seg c s ++ cr_if cr ++ seg) <? length seg = false) as ->.
   { apply Nat.ltb_ge. rewrite !app_length. lia. }
   rewrite slice_ok by (rewrite ?app_length; lia). cbn [bind skipn]. rewrite Nat.sub_0_r.
@@ -894,8 +896,12 @@ Proof.
   induction t as [|b t IH]; intros k Hall; [destruct k; reflexivity|].
   destruct k as [|k]; [reflexivity|]. cbn [forallb] in Hall. apply andb_prop in Hall as [Hb Ht].
   cbn [only_crlf_fuel]. unfold is_crlf in Hb. apply orb_prop in Hb.
-  assert (decode_rune (b :: t) = (b2n b, 1) /\ (N.eqb (b2n b) 10 || N.eqb (b2n b) 13 = true)) as [-> ->].
-  { destruct Hb as [Hb|Hb]; apply byte_eqb_eq in Hb; subst b; split; reflexivity. }
+  assert (Hdec : forall b t, (Byte.eqb b CR = true \/ Byte.eqb b LF = true) ->
+            decode_rune (b :: t) = (b2n b, 1) /\ (N.eqb (b2n b) 10 || N.eqb (b2n b) 13 = true)).
+  { intros b' t' Hb'. destruct Hb' as [Hb'|Hb']; apply byte_eqb_eq in Hb'; subst b'; split; reflexivity. }
+  rewrite (proj1 (Hdec b t Hb)), blank_rune_spec, (proj2 (Hdec b t Hb)).
+  assert (True /\ True) as [_ _].
+  { split; exact I. }
   cbn [andb skipn]. apply IH. exact Ht.
 Qed.
 
@@ -1150,9 +1156,13 @@ Proof.
       * apply Nat.leb_gt in El. assert (S i <=? idx = false) as -> by (apply Nat.leb_gt; lia). reflexivity.
 Qed.
 
+(* the default component index extracted from Elem.compIndex is the documented 1 *)
+Lemma comp_index_spec : comp_index d = spec_comp_index d.
+Proof. reflexivity. Qed.
+
 Lemma matching_lookup s : matching esc k d (exp_elems c 0 s) = Ok (map (fun v => (k, v)) (lookup s d)).
 Proof.
-  rewrite matching_elems. cbn [Nat.leb]. rewrite Nat.sub_0_r. reflexivity.
+  rewrite matching_elems. cbn [Nat.leb]. rewrite Nat.sub_0_r. unfold lookup, lk, ci. rewrite comp_index_spec. reflexivity.
 Qed.
 End Decl.
 
@@ -1162,6 +1172,8 @@ Lemma elem_nodes s : forall decls k,
 Proof.
   induction decls as [|d ds IH]; intros k; [reflexivity|].
   cbn [seg_to_node exp_nodes]. rewrite matching_lookup. cbn [bind].
+  (* the "use the default" condition extracted from rawSegToNode is empty_if_missing || default != nil *)
+  unfold edi_use_default.
   destruct (lookup s d) as [|v vs]; cbn [map].
   - destruct (d_empty_if_missing d || match d_default d with Some _ => true | None => false end); [|reflexivity].
     rewrite IH. reflexivity.
